@@ -189,6 +189,7 @@ impl RawGen {
             fs_read_faults: vec![],
             term_faults: vec![],
             unreadable: vec![],
+            fs_write_faults: vec![],
         }
     }
 
